@@ -61,6 +61,8 @@ def enumerate_cases(tier, scope):
         for paused in (False, True):
             for by_keyword in (False, True):
                 yield {'kind': 'bcast_reply', 'intent': intent, 'paused': paused, 'by_keyword': by_keyword}
+                if intent in ('pause', 'kill'):
+                    yield {'kind': 'bcast_reply', 'intent': intent, 'paused': paused, 'by_keyword': by_keyword, 'bare_body': True}
     ops = ['run', 'cancel', 'run']
     for n in range(1, 4):
         for seq in itertools.product(['run', 'cancel'], repeat=n):
@@ -479,10 +481,16 @@ def _run_bcast_reply(case, v):
                 proc.pause('before')
             intent = {'play': process_comms.Intent.PLAY, 'pause': process_comms.Intent.PAUSE, 'kill': process_comms.Intent.KILL, 'other': 'state_changed.x.y'}[case['intent']]
             body = {'message': 'because'} if case['intent'] in ('pause', 'kill') else None
-            if case.get('by_keyword'):
-                reply = proc.broadcast_receive(None, msg=body, sender='ctl', subject=intent, correlation_id=None)
-            else:
-                reply = proc.broadcast_receive(None, body, 'ctl', intent, None)
+            if case.get('bare_body') and body is not None:
+                body = {}  # an intent without a text (the text is optional)
+            try:
+                if case.get('by_keyword'):
+                    reply = proc.broadcast_receive(None, msg=body, sender='ctl', subject=intent, correlation_id=None)
+                else:
+                    reply = proc.broadcast_receive(None, body, 'ctl', intent, None)
+            except Exception as exc:  # noqa: BLE001
+                v('broadcast-receive-raised', f"the {case['intent']} intent with body {body!r} made broadcast_receive raise {type(exc).__name__}: {exc}")
+                return
         if case['intent'] == 'other':
             if reply is not None:
                 v('unknown-broadcast-answered', f'a broadcast that is no control intent was answered with {reply!r}')
@@ -499,7 +507,7 @@ def _run_bcast_reply(case, v):
         want = {'kill': 'killed'}.get(case['intent'], 'created')
         if proc.state.value != want or (case['intent'] == 'pause' and not proc.paused) or (case['intent'] == 'play' and proc.paused):
             v('intent-not-carried-out', f"after the {case['intent']} broadcast: state {proc.state.value}, paused={proc.paused}")
-        if case['intent'] == 'kill' and proc.killed_msg() is not None and proc.killed_msg().get('message') != 'because':
+        if case['intent'] == 'kill' and not case.get('bare_body') and proc.killed_msg() is not None and proc.killed_msg().get('message') != 'because':
             v('intent-text-lost', f'kill text {proc.killed_msg()!r}')
     finally:
         for task in loop.all_tasks:
